@@ -210,3 +210,38 @@ package j5reflect
 
 // a reflector always has its schema cache (New, NewWithCache with a cache from NewSchemaCache)
 //@ type *Reflector invariant r: r != nil && r.schemaSet != nil && r.schemaSet.packages != nil
+
+// ---- decoding is exact or rejected (C03): no silent drop ------------------------------------------
+// A present (non-nil, non-pointer) Go value either converts to a valid protoreflect value or is
+// rejected with an error; "success with nothing" is reserved for nil inputs. The setters treat an
+// invalid Value with a nil error as "leave the member unset", so anything else here silently loses a
+// member of the document.
+//@ import json "encoding/json"
+//@ spec func presentScalar(v interface{}) bool = typeis(v, string) || typeis(v, bool) || typeis(v, json.Number)
+//@   | || typeis(v, int) || typeis(v, int16) || typeis(v, int32) || typeis(v, int64)
+//@   | || typeis(v, uint) || typeis(v, uint16) || typeis(v, uint32) || typeis(v, uint64) || typeis(v, float32) || typeis(v, float64)
+//@ func scalarReflectFromGo
+//@   requires schema != nil
+//@   ensures nodrop: result1 == nil && presentScalar(value) ==> pvValid(result0)
+//@ func byteValueFromString
+//@   ensures nodrop: result1 == nil ==> pvValid(result0)
+//@ func timestampFromString
+//@   ensures nodrop: result1 == nil ==> pvValid(result0)
+//@ func decimalFromString
+//@   ensures nodrop: result1 == nil ==> pvValid(result0)
+
+// Integer members: the quoted and the bare spelling of a number denote the same value. A decimal
+// integer text within the range of the target format is accepted with exactly its value; any other
+// text is rejected. (intText/intVal: spec/std.spec.)
+//@ spec func intFmt(schema *schema_j5pb.Field, f schema_j5pb.IntegerField_Format) bool = typeis(schema.Type, *schema_j5pb.Field_Integer) && as(*schema_j5pb.Field_Integer, schema.Type).Integer != nil && as(*schema_j5pb.Field_Integer, schema.Type).Integer.Format == f
+//@ spec func numText(v interface{}) string = typeis(v, string) ? as(string, v) : string(as(json.Number, v))
+//@ spec func isNumText(v interface{}) bool = typeis(v, string) || typeis(v, json.Number)
+//@ func scalarReflectFromGo
+//@   ensures int32: isNumText(value) && intFmt(schema, schema_j5pb.IntegerField_FORMAT_INT32) ==>
+//@   |   ((result1 == nil) <==> (intText(numText(value)) && 0 - 2147483648 <= intVal(numText(value)) && intVal(numText(value)) <= 2147483647)) && (result1 == nil ==> pvNum(result0) == intVal(numText(value)))
+//@   ensures int64: isNumText(value) && intFmt(schema, schema_j5pb.IntegerField_FORMAT_INT64) ==>
+//@   |   ((result1 == nil) <==> (intText(numText(value)) && 0 - 9223372036854775808 <= intVal(numText(value)) && intVal(numText(value)) <= 9223372036854775807)) && (result1 == nil ==> pvNum(result0) == intVal(numText(value)))
+//@   ensures uint32: isNumText(value) && intFmt(schema, schema_j5pb.IntegerField_FORMAT_UINT32) ==>
+//@   |   ((result1 == nil) <==> (intText(numText(value)) && !signed(numText(value)) && 0 <= intVal(numText(value)) && intVal(numText(value)) <= 4294967295)) && (result1 == nil ==> pvNum(result0) == intVal(numText(value)))
+//@   ensures uint64: isNumText(value) && intFmt(schema, schema_j5pb.IntegerField_FORMAT_UINT64) ==>
+//@   |   ((result1 == nil) <==> (intText(numText(value)) && !signed(numText(value)) && 0 <= intVal(numText(value)) && intVal(numText(value)) <= 18446744073709551615)) && (result1 == nil ==> pvNum(result0) == intVal(numText(value)))
